@@ -269,6 +269,11 @@ def check(prog: Program, tier: str) -> Result:
     for n in ast.walk(inner[0]):
         if isinstance(n, ast.Call) and isinstance(n.func, ast.Attribute) and n.func.attr == "append" and any(c is calls[0] for c in ast.walk(n)):
             results = attr_chain(n.func.value)
+    if results is None:
+        # neither a list of the classifications nor (below) a recognised fold: e.g. a running maximum over ordered codes tested for
+        # membership in a set of surviving codes - another algorithm, whose agreement with the statement this rule cannot decide
+        if not any(isinstance(s_, ast.If) and isinstance(s_.test, (ast.Name, ast.UnaryOp)) for s_ in outer.body):
+            raise AnalysisError(f"{q}: the classifications of a point are neither collected in a list nor folded in a form this rule knows")
     reset = any(isinstance(s, ast.Assign) and isinstance(s.targets[0], ast.Name) and s.targets[0].id == results and isinstance(s.value, ast.List) and not s.value.elts for s in outer.body)
     res.ob("R04.1", "the per-point result list is reset for every coordinate", bool(results) and reset, prog.loc(fi, outer))
     if not (results and reset):
@@ -415,6 +420,10 @@ def _check_calls(prog: Program, res: Result):
                 continue
             n_app += 1
             v = ev.data[1]
+            if not (isinstance(v, _Rat) and (v.key() in cuts or v.equals(_Rat.atom("FIELD")))):
+                # the loop hands on something that is not ONE field (a list of fields built in several passes, ..): not the shape
+                # this rule follows
+                raise AnalysisError(f"{q}: the loop over candidates appends {_vkey(v)[:40]}, which is not a single candidate field (cuts applied in separate passes?)")
             chain = []
             cur = v
             while isinstance(cur, _Rat) and cur.key() in cuts:
